@@ -276,6 +276,36 @@ class CallMixin:
             return VBool(truthy(args[0]) == truthy(args[1]))
         if name == "old_of":
             return args[0]
+        if name in ("as_str_list", "as_list"):
+            v = args[0]
+            if isinstance(v, VAny):
+                return coerce(v, SeqOf(Str if name == "as_str_list" else Any))
+            return v
+        if name in ("is_str_list", "is_any_list"):
+            v = args[0]
+            if isinstance(v, VAny):
+                return VBool(ValSort.is_LS(v.t) if name == "is_str_list" else ValSort.is_LV(v.t))
+            if isinstance(v, VList):
+                return VBool(v.elem is Str if name == "is_str_list" else True)
+            return VBool(False)
+        if name == "ih":
+            return self.induction_hypothesis(args[0], args[1:], fr, lineno)
+        if name == "reveal":
+            fv = args[0]
+            app = self.call_opaque(fv.info, list(args[1:]), {})
+            self.merge_depth += 1
+            saved = len(self.run.ctx)
+            try:
+                params = self.bind_params(fv.info, None, list(args[1:]), {})
+                from .ex import Frame
+                sub = Frame(fv.info.module, fv.info, is_spec=True)
+                sub.env.update(params)
+                body = self.merge_block(fv.info.node.body, sub)
+            finally:
+                self.merge_depth -= 1
+                del self.run.ctx[saved:]
+            self.assume(eq(app, body))
+            return VBool(True)
         if name == "mk":
             ty = args[0].py
             return VRec(ty, {k: kwargs[k] for k in ty.fields if k in kwargs} | {k: v for k, v in kwargs.items()})
@@ -288,6 +318,31 @@ class CallMixin:
                 bound = rest.pop(0)
             return self.call_vfunc(VFunc(finfo, bound_self=bound), rest, kwargs, fr, lineno, force_contract=True)
         raise Unsupported(f"spec primitive {name}")
+
+    def induction_hypothesis(self, fv, args, fr, lineno):
+        """Assume the lemma at smaller arguments; oblige that the measure (first argument) decreases."""
+        if not isinstance(fv, VFunc):
+            raise Unsupported("ih(): first argument must be the lemma function")
+        top = fr
+        while top.parent is not None:
+            top = top.parent
+        cur_params = getattr(self, "lemma_params", None)
+        if cur_params is None or getattr(self, "lemma_using", 0) > 0:
+            return VBool(True)  # lemma being *used*, not proved: the hypothesis is not needed
+        first_name = list(cur_params)[0]
+        big, small = cur_params[first_name], args[0]
+        if isinstance(big, VList):
+            dec = z3.And(small.length() < big.length(), small.length() >= 0)
+        else:
+            dec = z3.And(coerce(small, Int).t < coerce(big, Int).t, coerce(small, Int).t >= 0)
+        self.oblige("lemma", dec, lineno, label="ih.decreases")
+        self.lemma_using = getattr(self, "lemma_using", 0) + 1
+        try:
+            claim = self.inline_call(fv.info, None, None, list(args), {}, None, lineno)
+        finally:
+            self.lemma_using -= 1
+        self.assume(truthy(claim))
+        return VBool(True)
 
     def bind_params(self, finfo: FuncInfo, bound_self, args, kwargs, lineno=0):
         a = finfo.node.args
@@ -386,7 +441,10 @@ class CallMixin:
         if not hasattr(mi, "_rec"):
             g = {}
             for n, fi in mi.functions.items():
-                g[n] = {x.id for x in ast.walk(fi.node) if isinstance(x, ast.Name) and x.id in mi.functions}
+                ih_args = {id(c.args[0]) for c in ast.walk(fi.node) if isinstance(c, ast.Call)
+                           and isinstance(c.func, ast.Name) and c.func.id == "ih" and c.args}
+                g[n] = {x.id for x in ast.walk(fi.node) if isinstance(x, ast.Name) and x.id in mi.functions
+                        and id(x) not in ih_args}
             rec = set()
             for n in g:
                 seen, todo = set(), list(g[n])
@@ -401,8 +459,25 @@ class CallMixin:
             mi._rec = rec
         return mi._rec
 
+    def call_opaque(self, finfo, args, kwargs):
+        mi = finfo.module
+        pyfn = mi.py.__dict__[finfo.name]
+        ann = dict(getattr(pyfn, "__annotations__", {}))
+        names = [a.arg for a in finfo.node.args.args]
+        try:
+            ptys = [_ty_of_annotation(ann[n]) for n in names]
+            rty = _ty_of_annotation(ann["return"])
+        except KeyError as ex:
+            raise Unsupported(f"opaque spec function {finfo.name} needs pyvc type annotations ({ex})")
+        f = z3.Function(f"opq.{finfo.name}", *[t.sort() for t in ptys], rty.sort())
+        params = self.bind_params(finfo, None, args, kwargs)
+        self.ufs_used.add(f"opaque spec function {finfo.name} (definition revealed only where stated)")
+        return rty.wrap(f(*[t.pack(params[n]) for n, t in zip(names, ptys)]))
+
     def call_spec_function(self, finfo, args, kwargs, lineno):
         mi = finfo.module
+        if getattr(mi.py.__dict__.get(finfo.name), "__pyvc_opaque__", False):
+            return self.call_opaque(finfo, args, kwargs)
         if finfo.name in self._spec_callgraph(mi):
             return self.call_recfun(finfo, args, kwargs)
         if self.merge_depth > 0:
@@ -709,7 +784,8 @@ class CallMixin:
         if isinstance(v, VAny):
             t = v.t
             return VInt(z3.If(ValSort.is_S(t), z3.Length(ValSort.sv(t)),
-                              z3.If(ValSort.is_LS(t), z3.Length(ValSort.lsv(t)), z3.Length(ValSort.liv(t)))))
+                              z3.If(ValSort.is_LS(t), z3.Length(ValSort.lsv(t)),
+                                    z3.If(ValSort.is_LV(t), z3.Length(ValSort.lvv(t)), z3.Length(ValSort.liv(t))))))
         raise Unsupported(f"len of {v}")
 
     def bi_isinstance(self, args, kwargs, lineno):
@@ -726,7 +802,7 @@ class CallMixin:
             if isinstance(v, VAny):
                 t = v.t
                 return {"int": z3.Or(ValSort.is_I(t), ValSort.is_B(t)), "bool": ValSort.is_B(t), "str": ValSort.is_S(t),
-                        "dict": ValSort.is_D(t), "list": z3.Or(ValSort.is_LS(t), ValSort.is_LI(t)),
+                        "dict": ValSort.is_D(t), "list": z3.Or(ValSort.is_LS(t), ValSort.is_LI(t), ValSort.is_LV(t)),
                         "float": z3.BoolVal(False)}.get(tn, None) if tn in ("int", "bool", "str", "dict", "list", "float") \
                     else self._unsupported(f"isinstance(Any, {tn})")
             table = {"int": (VInt, VBool), "bool": (VBool,), "str": (VStr,), "list": (VList,), "tuple": (VTuple,),
@@ -1161,6 +1237,8 @@ class CallMixin:
         lst.seq = t
 
     def list_method(self, lst: VList, name, args, kwargs, lineno):
+        if getattr(lst, "assoc", False) and name == "items":
+            return lst
         if name == "append":
             x = args[0]
             if lst.items is not None:
